@@ -13,7 +13,7 @@ CHECKS = {
          "3/C06"),
  "C04": ("exploration",
          "Hypothesis program generation (signatures, curry splits, groupings) vs hand-nested construction + call-binding model; exhaustive Catalan groupings",
-         "Generated chains with exec-built classes of generated signatures; every grouping/split must equal hand nesting (types, target identity, arguments, construction log); each template call is judged against an independent model of Python call binding (itself validated against real calls). All Catalan groupings up to 6 operators enumerated; the rest sampled.",
+         "Generated chains with exec-built classes of generated signatures; classes constructed by __init__ or by a custom __new__, optionally declared @service; every grouping/split must equal hand nesting (types, target identity, arguments, construction log); each template call is judged against an independent model of Python call binding (itself validated against real calls). All Catalan groupings up to 6 operators enumerated; the rest sampled.",
          "Trusts Python's own call semantics as ground truth for the binding model (cross-checked on every complete argument list); argument values are ints and pool instances.",
          "3/C04"),
  "C07": ("exploration",
@@ -33,72 +33,72 @@ CHECKS = {
          "3/C14"),
  "C16": ("exploration",
          "Hypothesis stacks x histories; capturing log handler snapshots target state at emission",
-         "Generated decorator stacks (depth 0-6) and histories; pass-through of supply/utilisation/allocation at every layer, identity pass-through of demand for plain/Logger stacks, one record per write with level/name/args/state-before-write, template validation.",
+         "Generated decorator stacks (depth 0-6) and histories; pass-through of supply/utilisation/allocation at every layer, identity pass-through of demand for plain/Logger stacks, one record per write with level/name (incl. the root logger)/args/state-before-write, template validation.",
          "Buffer.run is not driven here (C09); Logger default name follows the implementation (target's class qualname).",
          "3/C16"),
  "C17": ("exploration",
          "Hypothesis records decoded by an independent line-protocol reference parser / json.loads (round trip)",
-         "Generated records over an alphabet with every protocol-special character; output decoded by an independently written InfluxDB 1.x line-protocol parser and compared field by field (names, tags, field kinds and values, timestamp in integer arithmetic); JSON compared with the documented merge order.",
+         "Generated records over an alphabet with every protocol-special character; output decoded by an independently written InfluxDB 1.x line-protocol parser and compared field by field (names, tags, field kinds and values, timestamp in integer arithmetic); every record is formatted a second time and as JSON afterwards (several handlers) and must give the same account; JSON compared with the documented merge order.",
          "The reference parser implements the documented escaping rules of line protocol 1.x; inputs the protocol cannot express are excluded (listed in evidence).",
          "3/C17"),
  "C19": ("exploration",
          "Hypothesis trees vs independent recursive evaluator; scratch package of recording factories",
-         "Generated trees with __type__ nodes and failing nodes at arbitrary depth, evaluated by Translator and PipelineTranslator and by an independent post-order evaluator; structure, call log (order, arguments, exactly once), error type, error location tokens and the call-log prefix before the failure must agree.",
+         "Generated trees with __type__ nodes and failing nodes at arbitrary depth (factories incl. nested attributes, a wraps-wrapper with a narrower reported signature, positional arguments handed over as a one-shot iterator), evaluated by Translator and PipelineTranslator and by an independent post-order evaluator; structure, call log (order, arguments, exactly once), error type, error location tokens and the call-log prefix before the failure must agree.",
          "Keys are identifier-like; the location string is tokenised into keys and indices rather than compared textually.",
          "3/C19"),
  "C09": ("exploration",
          "Hypothesis timed histories against real run() coroutines under trio's virtual clock (MockClock autojump)",
-         "Every shipped periodic service runs its real run() under a virtual clock for 0-60 periods with generated intervals and environment actions placed before/on/after boundaries; oracle over timestamps and values of every write reaching the recording pool (step grid, Linear rate bound for all instant pairs, Buffer boundary semantics on the single ordered event sequence, FactoryPool adjustment grid) and exceptions leaving run().",
+         "Every shipped periodic service runs its real run() under a virtual clock for 0-60 periods with generated intervals and environment actions placed before/on/after boundaries; oracle over timestamps and values of every write reaching the recording pool (step grid, Linear rate bound for all instant pairs, Buffer boundary semantics on the single ordered event sequence, FactoryPool adjustment grid incl. children with supply and supply == demand at a boundary) and exceptions leaving run().",
          "Relative time tolerance 1e-9 of the run length; actions nominally on a boundary may fall on either side; controller pools are kept in states where every step must write.",
          "3/C09"),
  "C15": ("exploration",
          "Hypothesis histories + exhaustive depth-4 enumeration against real FactoryPool.run() under virtual clock; invariant oracle",
-         "Generated histories of demand writes, child state changes, self-disabling children and adjustment cycles; after every adjustment the statement's invariants are evaluated from the children; thorough tier enumerates all histories up to depth 4 over a small alphabet exhaustively.",
+         "Generated histories of demand writes, child state changes (incl. total supply made exactly equal to the request), self-disabling children and adjustment cycles; after every adjustment the statement's invariants are evaluated from the children; thorough tier enumerates all histories up to depth 4 over a small alphabet exhaustively.",
          "Harness keeps strong references to every child; a child counts as released once the pool wrote demand 0 to it; demands are ints/dyadics.",
          "3/C15"),
  "C05": ("exploration",
          "Hypothesis-generated YAML documents (own emitter) loaded with the real load(); differential against the same chain built with >>",
-         "Generated documents mixing !Tag (mapping/sequence/bare) and __type__ forms with nested lazy/eager tags, anchors/aliases, optional extra and logging sections and an injected constructor failure; returned pipeline shape, target identity links, construction log (once each, last to first, configured arguments) and equality with the Python >> chain; failures must surface and nothing before the failing position may be constructed.",
+         "Generated documents mixing !Tag (mapping/sequence/bare) and __type__ forms with nested lazy/eager tags, all native YAML value types (binary, dates, sets, omap, pairs), __type__ names nested below classes, anchors/aliases, optional extra and logging sections and an injected constructor failure; returned pipeline shape, target identity links, construction log (once each, last to first, configured arguments) and equality with the Python >> chain; failures must surface and nothing before the failing position may be constructed.",
          "Fixture classes are discovered through a scratch *.dist-info/entry_points.txt on sys.path (the real discovery path); emitter validated per case against a neutral PyYAML loader.",
          "3/C05"),
  "C18": ("exploration",
          "Hypothesis-generated hostile YAML documents with side-effect canaries (import marker file, recording callables)",
-         "Documents valid except for one python/* tag (all PyYAML kinds, three spellings) or unregistered !tag at generated positions (sections, pipeline, nested in lazy/eager tag arguments, complex keys, logging section, behind aliases); load() must raise, the canary module must not be imported (sys.modules + marker file) and no canary callable may be called or instantiated.",
+         "Documents valid except for one python/* tag (all PyYAML kinds, three spellings) or unregistered !tag at generated positions (root node, sections, pipeline, nested in lazy/eager tag arguments, mapping keys, values merged with `<<`, logging section, behind aliases); load() must raise, the canary module must not be imported (sys.modules + marker file) and no canary callable may be called or instantiated.",
          "Calls of real os/subprocess targets are not observed, only rejection; canaries make import/call/instantiation observable. Thorough tier adds an atheris byte-level fuzz target when atheris is installable.",
          "3/C18"),
  "C01": ("fault_enumeration",
          "Hypothesis scenario generation + exhaustive fault product against the real runtime in a forked worker; identity-based cause oracle",
-         "Failing payloads of every flavour x ~57 failure kinds (Exception subclasses, BaseExceptions, all falsy and truthy return values, KeyboardInterrupt raised or as real SIGINT) x 6 registration modes x both runners are enumerated exhaustively without bystanders, and sampled with bystanders, several simultaneous failures, delays, accept delays and switch intervals; a further test runs the same runner instance twice. The blocking call must end within 20 s, must not return normally without a KeyboardInterrupt and must raise RuntimeError caused (through exception groups, by identity) only by injected failures.",
+         "Failing payloads of every flavour x ~57 failure kinds (Exception subclasses, BaseExceptions, all falsy and truthy return values, KeyboardInterrupt raised or as real SIGINT) x 6 registration modes x both runners are enumerated exhaustively without bystanders, and sampled with bystanders, several simultaneous failures, cancellation-absorbing bystanders, delays, accept delays and switch intervals; a further test runs the same runner instance twice. The blocking call must end within 20 s, must not return normally without a KeyboardInterrupt and must raise RuntimeError caused (through exception groups, by identity) only by injected failures.",
          "Thread interleavings are sampled, not enumerated (a fifth of the scenarios run under harness-owned line-level delays inside the runner modules); bounded liveness (20 s) stands for 'never keeps running'; accept()/run() executes in the main thread of a forked worker per scenario.",
          "3/C01"),
  "C02": ("fault_enumeration",
          "Hypothesis termination scenarios in a forked worker; invariant over the timestamped per-payload event log vs the instant the call ended",
-         "A finite core (every trigger x flavour/state/cleanup of one running coroutine payload x runner, 570 scenarios) is enumerated completely in both tiers; beyond it every termination trigger (failure per flavour and kind, raised KeyboardInterrupt, real SIGINT, shutdown(), stop()) at generated instants against generated sets of running coroutine payloads (sleeping, spinning, beating, just adopted, adopted from payloads, adopted during shutdown) with synchronous and shielded cleanup and blocked threads, compound triggers (shutdown followed by a failure inside the cleanup window) and payloads adopted by the failing payload in its last step; each started coroutine payload must log its framework's cancellation and cleanup-done before T_end and nothing after it.",
+         "A finite core (every trigger x flavour/state/cleanup of one running coroutine payload x runner, 570 scenarios) is enumerated completely in both tiers; beyond it every termination trigger (failure per flavour and kind, raised KeyboardInterrupt, real SIGINT, shutdown()/stop() from outside or requested by a payload of any flavour) at generated instants against generated sets of running coroutine payloads (sleeping, spinning, beating, just adopted, adopted from payloads, adopted during shutdown) with synchronous and shielded cleanup and blocked threads, compound triggers (shutdown followed by a failure inside the cleanup window) and payloads adopted by the failing payload in its last step; each started coroutine payload must log its framework's cancellation and cleanup-done before T_end and nothing after it.",
          "Sampled interleavings and trigger instants (a fifth of the scenarios under line-level delays inside the runner modules); timestamps are monotonic_ns taken inside the payloads, T_end after the call returned; 20 s liveness bound.",
          "3/C02"),
  "C03": ("exploration",
          "Hypothesis submission histories (steady and shutdown-race phases) in a forked worker; exactly-once / argument / context / adopt-result oracle",
-         "Generated numbers of payloads and services per flavour with generated arguments, submitted before start, at start, during the first polling cycles and later by concurrent outside threads and from payloads of every flavour; counted at quiescence plus five polling periods; a second phase races shutdown() against adopt storms while payloads with long (shielded) cleanup keep the runtime in its cleanup window; services that finish and are dropped while new ones are created, 25-70 payloads of one flavour, and line-level schedule perturbation (settrace delays) inside the runner modules for concurrent submitters.",
+         "Generated numbers of payloads and services per flavour with generated arguments, (callables of several kinds; service classes that refine a service class of another flavour) submitted before start, at start, during the first polling cycles and later by concurrent outside threads, from payloads of every flavour and from their cancellation cleanup; counted at quiescence plus five polling periods; a second phase races shutdown() against adopt storms while payloads with long (shielded) cleanup keep the runtime in its cleanup window; services that finish and are dropped while new ones are created, 25-70 payloads of one flavour, and line-level schedule perturbation (settrace delays) inside the runner modules for concurrent submitters.",
          "Sampled interleavings, partly under line-level delays inside the runner and service modules; 'none is lost' judged within 20 s; adopt calls after shutdown began are judged only inside observed cleanup intervals.",
          "3/C03"),
  "C10": ("exploration",
          "Hypothesis execute/adopt sequences in a forked worker; identity of result/exception evaluated in the worker, liveness of bystanders afterwards",
-         "A finite core (payload flavour x calling context x each of ~50 outcomes, one execute per scenario, 520 scenarios) is enumerated completely in both tiers; beyond it 1-15 execute calls per scenario over flavour x caller context x outcome x arguments, two concurrent outside callers, interleaved with adopts, callers acting the moment they start; exactly-once start with exact arguments in the runtime's own loop / trio run, identical result or exception object for the caller, bystanders keep beating, accept() ends only on shutdown().",
+         "A finite core (payload flavour x calling context x each of ~50 outcomes, one execute per scenario, 520 scenarios) is enumerated completely in both tiers; beyond it 1-15 execute calls per scenario over flavour x caller context x outcome x arguments x kind of callable, two concurrent outside callers, interleaved with adopts, callers acting the moment they start; exactly-once start with exact arguments in the runtime's own loop / trio run, identical result or exception object for the caller, bystanders keep beating, accept() ends only on shutdown().",
          "One blocking cross-loop direction per scenario; exceptions that Python's future plumbing converts are excluded; executed payloads are short.",
          "3/C10"),
  "C11": ("exploration",
          "Hypothesis mixes of adopted/service/executed coroutine payloads with non-atomic overlap detectors; thread/loop/run identity oracle",
-         "2-10 coroutine payloads per flavour from every submission path run synchronous sections around a GIL-releasing sleep with a per-flavour enter/exit counter; all events of a flavour must carry one thread and one loop/run identity, counters never differ from 1, heartbeats progress (relative to an idle control window, reproduced three times) while thread payloads block; adopters with private event loops, 25-40 simultaneous blockers, executes around the moment of shutdown.",
+         "2-10 coroutine payloads per flavour from every submission path run synchronous sections around a GIL-releasing sleep with a per-flavour enter/exit counter; all events of a flavour must carry one thread and one loop/run identity, counters never differ from 1, heartbeats progress (relative to an idle control window, reproduced three times) while thread payloads block - also across a shutdown with threads still blocked; adoption from the middle of a checkpoint-free section; adopters with private event loops, 25-40 simultaneous blockers, executes around the moment of shutdown.",
          "Overlap absence is sampled; identity checks are deterministic for the usual breakages (private loop / trio.run per execute).",
          "3/C11"),
  "C12": ("fault_enumeration",
          "Hypothesis multi-episode lifecycle histories in one forked process; outcome/duration oracle per accept, shutdown and concurrent accept",
-         "1-5 episodes with fresh runners, end modes shutdown (outside thread / thread payload, generated offsets incl. immediately), real SIGINT, failing payload, shutdown racing a failure; concurrent accept attempts on the same or another instance; populations none / coroutines with cleanup / blocked threads / concurrent adopters; the next episode must report running after every kind of exit; simultaneous accepts of two runners under line-level schedule perturbation inside the guard module.",
+         "1-5 episodes with fresh runners, end modes shutdown (outside thread / thread payload, generated offsets incl. immediately), real SIGINT, an interrupt raised by a payload, failing payload, shutdown racing a failure; concurrent accept attempts on the same or another instance; populations none / coroutines with cleanup / blocked threads / concurrent adopters; the next episode must report running after every kind of exit; simultaneous accepts of two runners under line-level schedule perturbation inside the guard module.",
          "shutdown/SIGINT are issued after the runner reported running; 20 s liveness bound; a finished runner instance is not reused.",
          "3/C12"),
  "C13": ("fault_enumeration",
          "Hypothesis-generated configurations and fault kinds against real `python -m cobald.daemon` child processes with instrumented fixtures",
-         "YAML and Python configurations with 0-4 services of all flavours, scenario kinds valid+SIGINT, valid+failing service, and twelve kinds of invalid configuration; oracle from exit status, log file and an event file (constructed inside the runtime's running loop, started exactly once, beating until the signal, cancelled, exit 0; non-zero exit plus an error on the log otherwise).",
+         "YAML and Python configurations with 0-4 services of all flavours, configuration files named like modules the daemon needs, scenario kinds valid+SIGINT, valid+failing service (raise, return, BaseException, sys.exit), and twelve kinds of invalid configuration; oracle from exit status, log file and an event file (constructed inside the runtime's running loop, started exactly once, beating until the signal, cancelled, exit 0; non-zero exit plus an error on the log otherwise).",
          "Tens to hundreds of process runs per check, not thousands; a third of the valid runs perturb the daemon's own schedule (line-level delays in service.py installed through a harness sitecustomize); signals only after the daemon is observably up; 20 s bounds.",
          "3/C13"),
 }
